@@ -460,10 +460,6 @@ func (fv *FnV) docWrite(st *State, comp, ref, cond string, pos token.Pos) {
 	fv.bornFn()
 	alts := []string{"(>= (birth " + ref + ") " + fv.now0 + ")"}
 	alts = append(alts, fv.writableRefs(st, ref)...)
-	if fv.curWriteKey != "" && strings.HasPrefix(comp, "M|") || strings.HasPrefix(comp, "D|") && fv.curWriteKey != "" {
-		// the reserved navigation key may be set on, and removed from, a row the engine does not own (its removal is a separate obligation)
-		alts = append(alts, eq(fv.curWriteKey, fv.g.strLit("<-")))
-	}
 	goal := implies(cond, or(alts...))
 	kind := "map"
 	if strings.HasPrefix(comp, "E|") {
